@@ -144,10 +144,11 @@ def flush_optimizer(ctx, batch):
                 if m["id"] < b["B"] or r["id"] >= 0:
                     if m["id"] != r["id"]:
                         ok = False
-                elif og.strip_id(m) != og.strip_id(r):
+                elif not og.cmd_close(m, r):
                     ok = False
                 else:
                     r["id"] = m["id"]          # give the new Command the identity the model assigned
+                    r["pars"] = m["pars"]      # ... and the exact value of the rounded float parameters
             if not ok:
                 break
         if not ok:
@@ -263,6 +264,8 @@ def corr_merge(ctx, rng, count):
             model = dict(merged=og.strip_id(model["merged"]))
             if isinstance(res, dict):   # the model carries targets / deps of `a`; merge() itself has no targets
                 model["merged"]["regs"] = res["merged"]["regs"]
+                if og.cmd_close(model["merged"], res["merged"]):
+                    continue
         if model != res:
             ctx.disagree("K1.opMerge vs Operation.merge", dict(a=a, b=b), model, res)
 
@@ -370,33 +373,54 @@ PREFIX_F = [dict(cls="Coherent", regs=[0], pars=[0.25, 0.5]), dict(cls="Fock", r
 
 
 def law_cases(rng, count):
+    """every family systematically (random parameters; plain / exact inverse / daggered second / daggered
+    first / swapped-targets variants), then `count` random extra cases"""
     cases = []
+    allg = {**og.GATES1, **og.GATES2}
+
+    def gate_pair(cls, variant):
+        npar = allg[cls]
+        small = cls in og.NON_GAUSSIAN
+        regs = [rng.choice([0, 1])] if cls in og.GATES1 else rng.choice([[0, 1], [1, 0]])
+        a = dict(cls=cls, regs=regs, pars=([og.first_par(rng, cls, small)] + og.tail_pars(rng, cls, small)) if npar else [])
+        b = dict(cls=cls, regs=regs, pars=list(a["pars"]))
+        if npar:
+            b["pars"][0] = -a["pars"][0] if variant == "inverse" else og.first_par(rng, cls, small)
+        if variant == "dagger2":
+            b["dagger"] = True
+            if npar and rng.random() < 0.5:
+                b["pars"][0] = a["pars"][0]
+        if variant == "dagger1":
+            a["dagger"] = True
+        if variant == "daggers":
+            a["dagger"] = b["dagger"] = True
+        return a, b
+
+    for cls in allg:
+        for variant in ("plain", "inverse", "dagger2", "dagger1", "daggers"):
+            cases.append(gate_pair(cls, variant))
+    for cls in og.CHANNELS:
+        for t1, t2 in ((0.5, 0.25), (1.0, 1.0), (0.75, 1.0), (1 - 2.0 ** -21, 1 - 2.0 ** -21)):
+            tail = og.tail_pars(rng, cls, False)
+            cases.append((dict(cls=cls, regs=[1], pars=[t1] + tail), dict(cls=cls, regs=[1], pars=[t2] + tail)))
+    for ca in og.PREPS:
+        cb = rng.choice(list(og.PREPS))
+        cases.append((dict(cls=ca, regs=[1], pars=og.prep_pars(rng, ca, True)),
+                      dict(cls=cb, regs=[1], pars=og.prep_pars(rng, cb, True))))
+    for cls in og.MATRIX:
+        for _ in range(3):
+            cases.append((og.matrix_op(rng, cls, 1, True), og.matrix_op(rng, cls, 1, True)))
     for _ in range(count):
         u = rng.random()
-        if u < 0.5:
-            cls = rng.choice([c for c in list(og.GATES1) + list(og.GATES2)])
-            npar = {**og.GATES1, **og.GATES2}[cls]
-            small = cls in og.NON_GAUSSIAN
-            regs = [rng.choice([0, 1])] if cls in og.GATES1 else rng.choice([[0, 1], [1, 0]])
-            a = dict(cls=cls, regs=regs, pars=([og.first_par(rng, cls, small)] + og.tail_pars(rng, cls, small)) if npar else [])
-            b = dict(cls=cls, regs=regs, pars=list(a["pars"]))
-            if npar:
-                b["pars"][0] = -a["pars"][0] if rng.random() < 0.3 else og.first_par(rng, cls, small)
-            for o in (a, b):
-                if rng.random() < 0.3:
-                    o["dagger"] = True
-        elif u < 0.65:
+        if u < 0.6:
+            cases.append(gate_pair(rng.choice(list(allg)), rng.choice(["plain", "inverse", "dagger2", "dagger1"])))
+        elif u < 0.75:
             cls = rng.choice(list(og.CHANNELS))
             a = dict(cls=cls, regs=[1], pars=[og.first_par(rng, cls, False)] + og.tail_pars(rng, cls, False))
-            b = dict(cls=cls, regs=[1], pars=[og.first_par(rng, cls, False)] + a["pars"][1:])
-        elif u < 0.8:
-            ca, cb = rng.choice(list(og.PREPS)), rng.choice(list(og.PREPS))
-            a = dict(cls=ca, regs=[1], pars=og.prep_pars(rng, ca, True))
-            b = dict(cls=cb, regs=[1], pars=og.prep_pars(rng, cb, True))
+            cases.append((a, dict(cls=cls, regs=[1], pars=[og.first_par(rng, cls, False)] + a["pars"][1:])))
         else:
             cls = rng.choice(og.MATRIX)
-            a, b = og.matrix_op(rng, cls, 1, True), og.matrix_op(rng, cls, 1, True)
-        cases.append((a, b))
+            cases.append((og.matrix_op(rng, cls, 1, True), og.matrix_op(rng, cls, 1, True)))
     th, ph = 0.5, 0.25
     U = lambda t: [[np.cos(t), -np.sin(t)], [np.sin(t), np.cos(t)]]
     for t1, t2 in ((0.5, 0.25), (0.5, -0.5)):
@@ -487,7 +511,7 @@ def run(ctx, sf):
     flush_optimizer(ctx, batch)
     # merge rules: correspondence + executed law
     corr_merge(ctx, rng, ctx.n(400, 4000))
-    for a, b in law_cases(rng, ctx.n(110, 1200)):
+    for a, b in law_cases(rng, ctx.n(40, 1200)):
         oracle_law(ctx, sf, a, b)
     # optimiser: correspondence only (all families, matrices, symbols, measured parameters)
     nmax = 5
